@@ -138,6 +138,18 @@ def check_cont(case):
             raise
         except Exception as e:
             return [{"clause": "Raises", "detail": "parse of %s raised %s" % (xml, type(e).__name__)}]
+    elif cont == "circle":
+        obj = svg.Circle(5, 6, 7, transform=tf, **kw)
+    elif cont == "ellipse":
+        obj = svg.Ellipse(5, 6, 7, 3, transform=tf, **kw)
+    elif cont == "ellipse_rot":
+        obj = svg.Ellipse(5, 6, 7, 3, transform=svg.Matrix("rotate(90)") * tf, **kw)
+    elif cont == "polyline":
+        obj = svg.Polyline((0, 0), (3, 4), (6, 1), (-2, 7), transform=tf, **kw)
+    elif cont == "polygon":
+        obj = svg.Polygon((0, 0), (3, 4), (6, 1), (-2, 7), transform=tf, **kw)
+    elif cont == "line":
+        obj = svg.SimpleLine(1, 2, 3, 5, transform=tf, **kw)
     elif cont == "rect":
         obj = rect(transform=tf)
     elif cont == "path":
